@@ -315,6 +315,14 @@ fn build(seed: u64, i: usize) -> Built {
             FileUnit { path: nd.path(), pragma: Some("2.1.0".into()), custom_pragma: false, includes: incs, defs: nd.defs.clone(), main: None }
         })
         .collect();
+    // a file that demands an unsupported compiler version is reported, but its includes are
+    // still followed and its definitions still inform the analysis
+    let mut units = units;
+    if r.chance(1, 6) {
+        let k = r.usize(units.len());
+        units[k].pragma = Some(r.pick(&["2.2.0", "2.1.9", "3.0.0", "1.0.0"]).to_string());
+        shapes.push("unsupported-pragma-in-the-graph");
+    }
     let project = gen::Project { files: units, named: vec![0], libs: vec![] };
     let (w, layout) = project.render_with_layout(&mut Rng::new(style_seed), &style);
     for (p, b) in w.files {
